@@ -42,6 +42,7 @@ RULES = [
 ]
 RULES = [r for r in RULES if r[2]]
 ENV = dict(os.environ, CARGO_NET_OFFLINE="true")
+DELETE = False
 
 
 def code_mask(src):
@@ -87,6 +88,19 @@ def mutants():
                         if ln > 0 and "eyeball_verif" in lines[ln - 1]: continue
                         out.append({"crate": crate, "file": os.path.relpath(path, "/repo"), "line": ln + 1, "rule": tag,
                                     "text": lt[:140], "start": m.start(), "end": m.end(), "rep": rep})
+                # statement deletion: a whole line that is one simple statement (a call or an assignment ending in `;`)
+                if not DELETE: continue
+                pos = 0
+                for ln, line in enumerate(lines):
+                    lt = line.strip()
+                    start = pos; pos += len(line) + 1
+                    if not lt.endswith(";") or lt.startswith(("let ", "use ", "pub ", "return", "//", "#[", "type ", "const ", "static ", "break", "continue", "}", "fn ", "impl")): continue
+                    if "eyeball_verif" in lt or "tracing" in lt or "debug_assert" in lt or "unreachable" in lt or "panic!" in lt: continue
+                    if ln > 0 and ("eyeball_verif" in lines[ln - 1] or "tracing" in lines[ln - 1]): continue
+                    if lt.count("(") != lt.count(")") or lt.count("{") != lt.count("}") or not ("(" in lt or "=" in lt) or lt.startswith("mod "): continue
+                    if not all(mask[start + len(line) - len(line.lstrip()):start + len(line)]): continue
+                    out.append({"crate": crate, "file": os.path.relpath(path, "/repo"), "line": ln + 1, "rule": "delete-stmt",
+                                "text": lt[:140], "start": start, "end": start + len(line), "rep": ""})
     return out
 
 
@@ -147,9 +161,13 @@ def main():
     ap.add_argument("--max", type=int, default=0)
     ap.add_argument("--only", nargs="*", default=[])
     ap.add_argument("--out", default=os.path.join(ROOT, "work", "rustmut"))
+    ap.add_argument("--rules", default="token", help="token | delete | all")
     a = ap.parse_args()
     os.makedirs(a.out, exist_ok=True)
+    global DELETE
+    DELETE = a.rules in ("delete", "all")
     muts = mutants()
+    if a.rules == "delete": muts = [m for m in muts if m["rule"] == "delete-stmt"]
     if a.only: muts = [m for m in muts if any(o in m["file"] for o in a.only)]
     if a.max:
         step = max(1, len(muts) // a.max); muts = muts[::step][:a.max]
